@@ -255,6 +255,18 @@ def r14_2(run):
         run.ob("R14.2", loc(fi, cfg1.stmt[r]), fi.short, "a rejected seed does not clear the graph", not hit,
                "no clear_graph() on any path to the raise" if not hit else
                "backward(grad) with an incompatible grad destroys the graph before raising: a later, valid backward() finds nothing to propagate through")
+    # (4c) ... nor the gradients the upstream tensors hold: the traversal that nulls them (collect_all_tensors_and_clear_grads / any null_grad)
+    #      comes after the last rejection
+    wipes = {cfg1.stmt_node_containing(c) for c in calls_named(fi.node, "collect_all_tensors_and_clear_grads")}
+    wipes |= {cfg1.stmt_node_containing(c) for c in calls_named(fi.node, "null_grad")}
+    wipes.discard(None)
+    for r in raises:
+        before = nx.ancestors(cfg1.g, r)
+        hit = sorted(wipes & before)
+        run.ob("R14.2", loc(fi, cfg1.stmt[r]), fi.short, "a rejected seed does not discard the gradients of upstream tensors", not hit,
+               "the graph traversal (which nulls every upstream gradient) is not an ancestor of the raise" if not hit else
+               "backward(grad) with an incompatible grad has already traversed the graph and nulled the gradient of every upstream tensor when it "
+               "raises: a failed call leaves a trace (x.grad of a leaf reached through views is gone)")
     # (5) default seed
     cfg0 = build_cfg(run, fi, switch_assumptions(fi, track=True, extra={"self.constant": False, f"{gradp} is not None": False}))
     ns0 = cfg0.node_for(st)
